@@ -6,8 +6,9 @@
 package ipdict
 
 // A sorted, merged table: every bound is a 16-byte address, each range is non-empty, ranges are ordered by
-// descending start and a later range ends strictly below the start of every earlier one.
-//@ spec wfPairs(items ipPairs) bool := (forall k int :: 0 <= k && k < len(items) ==> len(items[k].startIP) == 16 && len(items[k].endIP) == 16 && be128(items[k].startIP) <= be128(items[k].endIP)) && (forall i int :: forall j int :: 0 <= i && i < j && j < len(items) ==> be128(items[j].startIP) < be128(items[i].startIP)) && (forall i int :: forall j int :: 0 <= i && i < j && j < len(items) ==> be128(items[j].endIP) < be128(items[i].startIP))
+// descending start; a later range either starts and ends strictly below the start of every earlier one, or
+// has the same start and does not end after it (0.0.0.0-0.0.0.0 / ::-:: entries may survive merging that way).
+//@ spec wfPairs(items ipPairs) bool := (forall k int :: 0 <= k && k < len(items) ==> len(items[k].startIP) == 16 && len(items[k].endIP) == 16 && be128(items[k].startIP) <= be128(items[k].endIP)) && (forall i int :: forall j int :: 0 <= i && i < j && j < len(items) ==> be128(items[j].startIP) <= be128(items[i].startIP)) && (forall i int :: forall j int :: 0 <= i && i < j && j < len(items) ==> be128(items[j].endIP) < be128(items[i].startIP) || (be128(items[j].startIP) == be128(items[i].startIP) && be128(items[j].endIP) <= be128(items[i].endIP)))
 //@ spec inSomeRange(items ipPairs, v int) bool := exists k int :: 0 <= k && k < len(items) && be128(items[k].startIP) <= v && v <= be128(items[k].endIP)
 
 //@ func (*IPTable).Search$1
